@@ -1,5 +1,7 @@
 SPECIFICATION Spec
 CONSTANTS
   Tier = "quick"
+  Limit = 100
+  Full = 10000
 INVARIANT Emit
 CHECK_DEADLOCK FALSE
